@@ -506,6 +506,19 @@ def constant_setattr(f):
         and e.func.attr in _OPERATOR_CMP and len(e.args) == 2 and not e.keywords:
       changed[0] = True
       return ast.Compare(left=expr(e.args[0]), ops=[_OPERATOR_CMP[e.func.attr]()], comparators=[expr(e.args[1])])
+    # (lambda: X)()  is X ;  (lambda a: F(a))(v) is F(v) for a single use of a
+    if isinstance(e, ast.Call) and isinstance(e.func, ast.Lambda) and not e.keywords and not any(isinstance(a, ast.Starred) for a in e.args) \
+        and len(e.func.args.args) == len(e.args) and not e.func.args.vararg and not e.func.args.kwarg and not e.func.args.kwonlyargs:
+      binds = {p.arg: a for p, a in zip(e.func.args.args, e.args)}
+
+      def sub_(x):
+        if isinstance(x, ast.Name) and isinstance(x.ctx, ast.Load) and x.id in binds:
+          return dataflow.clone(binds[x.id])
+        if isinstance(x, ast.Lambda):
+          return x
+        return dataflow._map_children(x, sub_)
+      changed[0] = True
+      return expr(sub_(dataflow.clone(e.func.body)))
     if isinstance(e, ast.Call) and isinstance(e.func, ast.Attribute) and isinstance(e.func.value, ast.Name) and e.func.value.id == 'operator' \
         and not e.keywords and not any(isinstance(a, ast.Starred) for a in e.args):
       nm = e.func.attr
